@@ -9,6 +9,11 @@ T14 -> Generated/T14.lean
 Inputs: `is_root`, `is_sr` (the flags), `is_item` (`isinstance(x, ContentItem)`), `has_rel`
 (`x.relationship_type is not None`), `is_container` (`isinstance(x, ContainerContentItem)`).
 `extend` and `__iadd__` are checked to consist of `self.append(item)` per item / `self.extend(val)`.
+
+T14v -> Generated/T14v.lean  (bridges of Proofs/SRSeqTie.lean): `csCheckDatasetRel` (relationship guard of _check_dataset),
+`csFromSeqCheckFlags` / `csFromSeqCtorFlags` (the flags from_sequence hands to _check_dataset / the constructor),
+`csAttachFlags` (flags of the sequence ContentItem.__setattr__ builds: call arguments, else __init__ defaults),
+`csRemoveByIdentity` (per removal loop: entry of the name index located by `is` or by `==`).
 """
 from __future__ import annotations
 
@@ -138,9 +143,11 @@ def build_T14(tree):
     out.append(translate_block(_rewrite(loops[0].body, _table(loops[0].target.id)) + [_ret('True')], 'csSetitemCheck', PARAMS3, {},
                                doc='`ContentSequence.__setitem__`: checks applied to every item offered'))
     sa = find_func(tree, 'ContentItem.__setattr__')
-    if ''.join(_norm(x) for x in strip_doc(sa.body)) != \
-            "ifname=='ContentSequence':super().__setattr__(name,ContentSequence(value))else:super().__setattr__(name,value)":
-        raise Unsupported('ContentItem.__setattr__ no longer wraps ContentSequence values in ContentSequence(value)')
+    import re
+    # the flags the call passes (or leaves to the defaults) are extracted by T14v (`csAttachFlags`)
+    if not re.fullmatch(r"ifname=='ContentSequence':super\(\)\.__setattr__\(name,ContentSequence\(value(,[^()]*)?\)\)"
+                        r"else:super\(\)\.__setattr__\(name,value\)", ''.join(_norm(x) for x in strip_doc(sa.body))):
+        raise Unsupported('ContentItem.__setattr__ no longer wraps ContentSequence values in ContentSequence(value, …)')
     txt = ''.join(_norm(s) for s in body)
     i_loop, i_old, i_set = txt.find('foriinitems:'), txt.find('replaced_items='), txt.find('super().__setitem__(idx,val)')
     i_rm, i_add = txt.find('delself._lut[i.name][index]'), txt.rfind('self._lut[i.name].append(i)')
@@ -427,3 +434,113 @@ def build_T14p(tree):
 
 
 TARGETS['T14p'] = {'file': 'sr/value_types.py', 'build': build_T14p, 'imports': ['HdVerif.Model.SRSeqIR']}
+
+
+# ======================================================================================================
+# T14v: expressions the hand-written part of Model/SRContentSeq.lean copies (bridges in Proofs/SRSeqTie.lean):
+# the relationship guard of _check_dataset and the flags from_sequence forwards, the flags of the sequence that the
+# ContentSequence attribute setter builds, and how the removal loops locate an entry of the name index
+# ======================================================================================================
+
+_FLAGS = ('is_root', 'is_sr')
+
+
+def _flag_args(call, sig_fn, skip):
+    """the expressions a call passes for is_root / is_sr: keyword, else position, else the default of the signature"""
+    names = [a.arg for a in sig_fn.args.args][skip:]
+    defaults = dict(zip([a.arg for a in sig_fn.args.args][len(sig_fn.args.args) - len(sig_fn.args.defaults):],
+                        sig_fn.args.defaults))
+    got = {}
+    for pos, a in enumerate(call.args):
+        if isinstance(a, ast.Starred) or pos >= len(names):
+            raise Unsupported('call with starred / surplus arguments: ' + ast.unparse(call))
+        got[names[pos]] = a
+    for k in call.keywords:
+        if k.arg is None:
+            raise Unsupported('call with **kwargs: ' + ast.unparse(call))
+        got[k.arg] = k.value
+    out = []
+    for f in _FLAGS:
+        e = got.get(f, defaults.get(f))
+        txt = _norm(e) if e is not None else None
+        lean = {'is_root': 'is_root', 'is_sr': 'is_sr', 'True': 'true', 'False': 'false'}.get(txt)
+        if lean is None:
+            raise Unsupported(f'flag {f} is passed as {txt}: ' + ast.unparse(call))
+        out.append(lean)
+    return '(' + ', '.join(out) + ')'
+
+
+def _calls(node, pred):
+    return [c for c in ast.walk(node) if isinstance(c, ast.Call) and pred(_norm(c.func))]
+
+
+def build_T14v(tree):
+    out, shas = [], []
+    init = find_func(tree, 'ContentSequence.__init__')
+    chk = find_func(tree, 'ContentSequence._check_dataset')
+    fs = find_func(tree, 'ContentSequence.from_sequence')
+    # ---- relationship guard of _check_dataset
+    gs = [s for s in chk.body if isinstance(s, ast.If) and "hasattr(dataset,'RelationshipType')" in _norm(s.test)]
+    if len(gs) != 1 or not _is_guard(gs[0]):
+        raise Unsupported('_check_dataset: one raising guard on RelationshipType expected')
+    shas.append(span_sha(gs))
+    out.append(translate_block(_rewrite(gs, {"hasattr(dataset,'RelationshipType')": 'has_rel'}) + [_ret('True')],
+                               'csCheckDatasetRel', [('has_rel', 'bool'), ('is_root', 'bool'), ('is_sr', 'bool')], {},
+                               doc='relationship-type guard of `ContentSequence._check_dataset`'))
+    # ---- from_sequence: the flags it hands to _check_dataset and to the constructor
+    body = strip_doc(fs.body)
+    shas.append(span_sha(body))
+    c1 = _calls(fs, lambda f: f == 'cls._check_dataset')
+    c2 = _calls(fs, lambda f: f in ('ContentSequence', 'cls'))
+    if len(c1) != 1 or len(c2) != 1 or not isinstance(body[-1], ast.Return) or body[-1].value is not c2[0]:
+        raise Unsupported('from_sequence: one call of _check_dataset and `return ContentSequence(…)` expected')
+    out.append('/-- `from_sequence`: (is_root, is_sr) as handed to `_check_dataset` -/\n'
+               f'def csFromSeqCheckFlags (is_root is_sr : Bool) : Bool × Bool := {_flag_args(c1[0], chk, 2)}')
+    out.append('/-- `from_sequence`: (is_root, is_sr) as handed to the constructor -/\n'
+               f'def csFromSeqCtorFlags (is_root is_sr : Bool) : Bool × Bool := {_flag_args(c2[0], init, 1)}')
+    # ---- ContentItem.__setattr__: the sequence built for the ContentSequence attribute
+    sa = find_func(tree, 'ContentItem.__setattr__')
+    sbody = strip_doc(sa.body)
+    shas.append(span_sha(sbody))
+    if len(sbody) != 1 or not isinstance(sbody[0], ast.If) or _norm(sbody[0].test) != "name=='ContentSequence'" \
+            or len(sbody[0].body) != 1:
+        raise Unsupported("ContentItem.__setattr__: `if name == 'ContentSequence': …` expected")
+    c3 = _calls(sbody[0].body[0], lambda f: f == 'ContentSequence')
+    if len(c3) != 1 or _norm(sbody[0].body[0]) != f'super().__setattr__(name,{_norm(c3[0])})' \
+            or not c3[0].args or _norm(c3[0].args[0]) != 'value':
+        raise Unsupported('ContentItem.__setattr__: super().__setattr__(name, ContentSequence(value, …)) expected')
+    shas.append(span_sha([init.args]))
+    flags = _flag_args(c3[0], init, 1)
+    if 'is_' in flags:
+        raise Unsupported('ContentItem.__setattr__: flags are not constants')
+    out.append('/-- `item.ContentSequence = value`: (is_root, is_sr) of the sequence that is stored (arguments of the call in\n'
+               '`ContentItem.__setattr__`, else the defaults of `ContentSequence.__init__`) -/\n'
+               f'def csAttachFlags : Bool × Bool := {flags}')
+    # ---- how the removal loops find the entry of the name index
+    cnode = find_func(tree, 'ContentSequence')
+    rows = []
+    for fn in [n for n in cnode.body if isinstance(n, ast.FunctionDef)]:
+        for st in ast.walk(fn):
+            if not (isinstance(st, ast.For) and isinstance(st.target, ast.Name)):
+                continue
+            v = st.target.id
+            for s in st.body:
+                t = _norm(s)
+                if _re.fullmatch(rf'(\w+)=\[(\w+)is{v}for\2inself\._lut\[{v}\.name\]\]\.index\(True\)', t):
+                    rows.append((fn.name, 'true'))
+                    shas.append(span_sha([s]))
+                elif _re.fullmatch(rf'(\w+)=self\._lut\[{v}\.name\]\.index\({v}\)', t) or \
+                        _re.fullmatch(rf'(\w+)=\[(\w+)=={v}for\2inself\._lut\[{v}\.name\]\]\.index\(True\)', t):
+                    rows.append((fn.name, 'false'))
+                    shas.append(span_sha([s]))
+                elif '_lut' in t and '.index(' in t:
+                    raise Unsupported(f'{fn.name}: unknown way of locating an index entry: {ast.unparse(s)}')
+    if not rows:
+        raise Unsupported('no removal loop found in ContentSequence')
+    out.append(lean_table('csRemoveByIdentity', 'List (String × Bool)', [f'("{m}", {b})' for m, b in rows],
+                          doc='per removal loop (method): the entry of the name index is located by identity (`m is i`, true)\n'
+                              'or by equality (`.index(i)`, false)'))
+    return '\n\n'.join(out), hashlib.sha256(''.join(shas).encode()).hexdigest()
+
+
+TARGETS['T14v'] = {'file': 'sr/value_types.py', 'build': build_T14v}
